@@ -84,6 +84,11 @@ fn do_rollback(log: &Log, e: u32, m: &mut Matcher, k: usize) -> bool {
 }
 
 fn do_ffb(log: &Log, e: u32, m: &mut Matcher) {
+    // recorded finding C11/forced-marker-bytes-then-mask: the query is skipped where it would leave the marker form
+    // of a forced token-identity terminal in the parser (non-canonical vocabularies)
+    if !m.tok_env().map(|t| t.tokenize_is_canonical()).unwrap_or(true) && m.deep_clone().compute_ff_bytes().contains(&0xFF) {
+        return;
+    }
     let b = m.compute_ff_bytes();
     post(log, e, m, json!({"ev":"FFBytes","b":bytes_json(&b)}));
 }
